@@ -206,7 +206,11 @@ pub open spec fn lists_per_want(v4: Seq<NodeHandle>, v6: Seq<NodeHandle>, want: 
     && (v4.len() > 0 ==> w == Want::V4 || w == Want::Both)
     && (v6.len() > 0 ==> w == Want::V6 || w == Want::Both)
 }
-pub open spec fn nodes_per_want(r: Response, want: Option<Want>, own_v4: bool) -> bool { lists_per_want(r.nodes_v4@, r.nodes_v6@, want, own_v4) }
+pub open spec fn nodes_per_want(r: Response, want: Option<Want>, own_v4: bool) -> bool {
+    lists_per_want(r.nodes_v4@, r.nodes_v6@, want, own_v4)
+    && (forall|i: int| 0 <= i < r.nodes_v4@.len() ==> sa_is_v4(#[trigger] r.nodes_v4@[i].addr))
+    && (forall|i: int| 0 <= i < r.nodes_v6@.len() ==> !sa_is_v4(#[trigger] r.nodes_v6@[i].addr))
+}
 
 impl DhtHandler {
 //@begin fn src/handler.rs impl:DhtHandler handle_incoming rules=R-deasync props=C05,C06,C07,C12
@@ -546,6 +550,8 @@ impl DhtHandler {
     ) -> (res: Result<(Vec<NodeHandle>, Vec<NodeHandle>), WorkerError>)
         ensures res is Ok,
             lists_per_want(res->Ok_0.0@, res->Ok_0.1@, want, sa_is_v4(self.socket.local_addr)), // @C09.at_most_8_per_family_selected_by_want
+            forall|i: int| 0 <= i < res->Ok_0.0@.len() ==> sa_is_v4(#[trigger] res->Ok_0.0@[i].addr), // @C09.nodes_list_holds_only_ipv4
+            forall|i: int| 0 <= i < res->Ok_0.1@.len() ==> !sa_is_v4(#[trigger] res->Ok_0.1@[i].addr), // @C09.nodes6_list_holds_only_ipv6
     {
         let want = match want {
             Some(want) => want,
